@@ -64,10 +64,57 @@ def check_writer_totality(run, E):
     del E.contracts[H5 + '_write_list']
 
 
+def check_rdms_dict(run, E):
+    """dictionary form of RDMs: to_dict stores EVERY defining field under its own key (nothing dropped or regenerated:
+    dissimilarities, descriptors, rdm_descriptors incl. index, pattern_descriptors incl. index, measure); rdms_from_dict builds
+    the object from exactly these entries (descriptor dictionaries through dict_to_list); hence from_dict(to_dict(x)) has x's fields"""
+    from contracts.common import install_rdms
+    RD = 'rsatoolbox.rdm.rdms.'
+    fields = ('dissimilarities', 'descriptors', 'rdm_descriptors', 'pattern_descriptors', 'dissimilarity_measure')
+    ck = FuncCheck(E, run, 'C16', RD + 'RDMs.to_dict', '')
+
+    def post_to(ck, E, args, kw, p):
+        res = p.value
+        ok = isinstance(res, DictV)
+        ck.ensure('post/returns-a-dictionary', z3.BoolVal(ok), structure=True)
+        if not ok:
+            return
+        ck.ensure('post/exactly-the-defining-fields-are-stored', z3.BoolVal(set(res.d) == set(fields)),
+                  note=f'keys: {sorted(res.d)}')
+        for f in fields:
+            if f in res.d:
+                ck.ensure_eq(f'post/{f}-is-the-objects-own-value', res.d[f], E.getattr(args[0], f))
+    ck.execute(lambda E: ([E.sym_obj('self', 'RDMs')], {}, []), post=post_to, allow_raise=lambda *a: None)
+    yield ck
+    ck = FuncCheck(E, run, 'C16', RD + 'rdms_from_dict', '')
+    hold = {}
+
+    def mk(E):
+        d = DictV({f: E.sym_val('d_' + f) for f in fields})
+        hold['d'] = d
+        return [d], {}, []
+
+    def post_from(ck, E, args, kw, p):
+        res, d = p.value, hold['d']
+        ok = isinstance(res, Obj) and res.cls == 'RDMs'
+        ck.ensure('post/returns-an-RDMs-object', z3.BoolVal(ok), structure=True)
+        if not ok:
+            return
+        for f in ('dissimilarities', 'descriptors', 'dissimilarity_measure'):
+            ck.ensure_eq(f'post/{f}-taken-from-the-dictionary', res.fields.get(f), d.d[f])
+        for f in ('rdm_descriptors', 'pattern_descriptors'):
+            ck.ensure_eq(f'post/{f}-taken-from-the-dictionary-(lists-restored)', res.fields.get(f),
+                         E.app('rsatoolbox.util.descriptor_utils.dict_to_list', [d.d[f]]))
+    ck.execute(mk, post=post_from, allow_raise=lambda *a: None)
+    yield ck
+
+
 def run(run):
     E = new_engine(run)
     fails = []
     for ck in check_writer_totality(run, E):
+        fails += ck.failed
+    for ck in check_rdms_dict(run, new_engine(run)):
         fails += ck.failed
     finish_engine(E, run)
     run.trust('h5py / pickle are assumed dependencies; object <-> dict conversions and real file round trips are decided by the bounded tier')
